@@ -1,5 +1,6 @@
 """C16 -- affine charts, affine maps, subspace operations (C1, R1c, I1c, U1)."""
 from ..rules import chart_rules as R
+from ..rules import proj_rules as PR
 from ..rules.common import u1, n1
 
 P = R.PROJ
@@ -17,6 +18,7 @@ def run(ctx):
     R.rule_c1(ctx)
     R.rule_chart_slot(ctx)
     n1(ctx, ["geometry_tools/projective.py"])
+    PR.rule_bm1(ctx)
     u1(ctx, ENTRIES, min_functions=15)
     ctx.r.assume("affine maps, translations, intersections and eigenvectors "
                  "are numerical clauses and not decided")
